@@ -61,8 +61,22 @@ def main(argv=None):
         results = []
         if jobs:
             ctx = mp.get_context("fork")
-            with ctx.Pool(min(args.jobs, len(jobs))) as pool:
-                results = pool.map(_verify_one, jobs, chunksize=1)
+            hard = int(os.environ.get("PYVC_HARD_S", "300" if args.tier == "quick" else "2400"))
+            pool = ctx.Pool(min(args.jobs, len(jobs)))
+            try:
+                asyncs = [(j, pool.apply_async(_verify_one, (j,))) for j in jobs]
+                deadline = time.time() + hard
+                for j, a in asyncs:
+                    try:
+                        results.append(a.get(timeout=max(1.0, deadline - time.time())))
+                    except mp.TimeoutError:
+                        results.append({"target": j[1], "status": "undecided", "reason": f"wall-clock limit of {hard}s for this check reached",
+                                        "obligations": {}, "violations": [], "undecided": [], "paths": 0, "cases": 0, "solver_s": 0.0, "wall_s": float(hard),
+                                        "source_hash": "", "inlined": [], "used_contracts": [], "intrinsics": [], "assumptions": [], "samples": [],
+                                        "normal_paths": 0, "exc_paths": {}})
+            finally:
+                pool.terminate()
+                pool.join()
         sres = structural.run(prop, args.repo, args.tier)
         rc = report(prop, args, targets, results, sres, seed, t0)
         return rc
